@@ -14,7 +14,7 @@ GRID_NOTE = ("Trusted base: the virtual clock (the harness executable interposes
 
 CHECKS = {
  "C05": dict(engine="gridmc", category="exploration", technique="bounded-exhaustive enumeration of an input alphabet product on the real code against an exact reference model",
-   text="Every point of the cross product of boundary alphabets (as-of, void-after, age incl. negative/zero/sub-tick/hours/68 years, bound, drift, status, realtime reading) is run through the real ClockErrorBound::now() under a virtual clock and, on a reduced grid, through ClockBoundClient::now() over a real segment; symmetry, exact width law (+/-1 ns) and monotonicity in age are checked on each. A sequential pure function: small-scope exhaustive input enumeration is the model-checking reading of a for-all-inputs property.",
+   text="Every point of the cross product of boundary alphabets (as-of, void-after, age incl. negative/zero/sub-tick/hours/68 years, bound, drift, status, realtime reading) is run through the real ClockErrorBound::now() under a virtual clock and, on a reduced grid, through ClockBoundClient::now() over a real segment; symmetry, exact width law (+/-1 ns) and monotonicity in age are checked on each. The age alphabet is structural, not only boundary points: ages decomposed as (whole seconds x nanoseconds) in both signs, wrap points of narrowing conversions (k x 2^w x unit for unit in ns/us/ms/s, w in 16/31/32), thresholds +/- 1 ns; thorough adds dense +/-40 ns windows around every comparison point and a geometric sweep (226 M evaluations). A sequential pure function: small-scope exhaustive input enumeration is the model-checking reading of a for-all-inputs property.",
    design_ref="6", note=GRID_NOTE),
  "C06": dict(engine="gridmc", category="exploration", technique="bounded-exhaustive enumeration of an input alphabet product on the real code against an exact reference model",
    text="Same grid; the returned status is compared with the status table of the statement for all three stored statuses, with readings 1 ns either side of as-of+5 s and of void-after (reading exactly at void-after: FreeRunning or Unknown both accepted, the statement leaves it open).",
@@ -30,16 +30,16 @@ SEQ_NOTE = ("Trusted base: the cfg-gated interception layer in clock-bound-shm/s
 SEQ_TECH = "stateless model checking of the real ShmWriter/ShmReader under a simulated C11 release/acquire memory model (exhaustive read-from / interleaving / crash-point enumeration, reader states to a fixpoint)"
 CHECKS.update({
  "C02": dict(engine="seqmc", category="model_checking", technique=SEQ_TECH,
-   text="For every writer trace (initial generations incl. the 16-bit wrap and odd crash-left values, K<=2..3 updates) the real snapshot() is executed for every reader attach point and every read-from choice the C11 RA model allows at each load (all choices for 2 chunks; bounded number of stale reads for 7 words), breadth-first over the reader's cache states to a fixpoint; every returned record must be the empty record or a completed publication. Also with the writer stopped for ever at every point, running retry-exhausting calls in full. This is the property's quantifier (all interleavings x all RA executions) up to the stated bounds.",
+   text="For every writer trace (initial generations incl. the 16-bit wrap and odd crash-left values, K<=2..3 updates) the real snapshot() is executed for every reader attach point and every read-from choice the C11 RA model allows at each load (all choices for 2 chunks; bounded number of stale reads for 7 words), breadth-first over the reader's cache states to a fixpoint; every returned record must be the empty record or a completed publication. Also with the writer stopped for ever at every point, running retry-exhausting calls in full. Record families: all-distinct words, status-only changes, real records alternating with the all-zero placeholder, an identical record republished. This is the property's quantifier (all interleavings x all RA executions) up to the stated bounds.",
    design_ref="3", note=SEQ_NOTE),
  "C03": dict(engine="seqmc", category="model_checking", technique=SEQ_TECH,
-   text="Same exploration; publication index returned by successive calls never decreases (RA and SC modes); in SC mode (all interleavings of writer events with reader loads, canonicalised per location) a call all of whose loads are explained by an idle writer position must return the latest completed publication there.",
+   text="Same exploration; publication index returned by successive calls never decreases (RA and SC modes); in SC mode (all interleavings of writer events with reader loads, canonicalised per location) a call all of whose loads are explained by an idle writer position (idleness is independent of the generation's parity) must return the latest completed publication there (compared by content, so repeated records are handled). Plus a 70 000-publication sequential run through the wrap with long-lived, sparse and fresh readers and clean restarts, for behaviour that only arms after many updates.",
    design_ref="3.3, 3.4", note=SEQ_NOTE),
  "C04": dict(engine="seqmc", category="fault_enumeration", technique=SEQ_TECH + "; crash at every intercepted writer event, restart",
    text="Two (thorough: three) writer incarnations with a crash after every intercepted event of ShmWriter::new / wipe / write (each file operation of wipe, the version store, each generation store, each record chunk), then a restart; readers attached at every position (the attach itself is explored like a call): (a) only complete records, in order (RA + SC), (b) SC freshness after the restarted daemon's first publication, (c) writer-trace oracles: a valid segment is never wiped/emptied/re-laid-out, an unusable one is attachable and 72 bytes after the first publication; ShmReader::new accepts exactly the file states the documented header rules call valid.",
    design_ref="3.3, 3.4", note=SEQ_NOTE),
  "C11": dict(engine="seqmc", category="model_checking", technique="explicit-state closure over (generation, idle/in-flight) with the successor relation computed by the real ShmWriter::write for all 65535 start values x crash points",
-   text="All 65535 non-zero start generations x {complete update, crash after each of the 4 events of an update followed by a restart and a full update}, plus the histories from a freshly wiped segment: in the file as a third-party reader sees it the generation is odd at every position inside an update, the record is only modified while it is odd, it is even, non-zero and changed after the update, 0 is never visible after the first publication, the wrap continues at 2. Because every value is a start value, the invariant is inductive; the reachable closure from the wiped segment is reported as states/transitions.",
+   text="All 65535 non-zero start generations x {three consecutive updates by one writer instance; crash after each of the 4 events of an update followed by a restart and three more updates}, plus the histories from a freshly wiped segment: in the file as a third-party reader sees it the generation is odd at every position inside an update, the record is only modified while it is odd, it is even, non-zero and changed after the update, 0 is never visible after the segment has been published to (at any trace position, including a restarted writer's start-up), the wrap continues at 2; plus the 70 000-publication sequential run. Because every value is a start value, the invariant is inductive; the reachable closure from the wiped segment is reported as states/transitions.",
    design_ref="3.5", note="Trusted base: interception layer as for C02; file snapshots after every event. Exhaustive over the 16-bit generation domain."),
  "C18": dict(engine="seqmc", category="model_checking", technique=SEQ_TECH,
    text="The writer stops for ever at every position of every trace (RA with bounded stale reads, SC with all interleavings); every snapshot() call of every reader must return after at most 5e6 record copies; a call that finds an update in flight (odd or zero generation, version 0) must answer Ok from its previous snapshot within 64 loads. Calls that spin on a dead writer are really executed to the end of the retry budget once per distinct signature and otherwise cut after 3000 identical iterations. Plus two directed single schedules for the continuously-updating-writer clause: a free-running writer thread, and a deterministic adversary that completes one update between every record copy and re-check of the reader 3e6 times (a bounded reader gives up by itself; returning only once the adversary stops is a violation).",
@@ -48,7 +48,7 @@ CHECKS.update({
 
 CHECKS.update({
  "C07": dict(engine="gridmc", category="exploration", technique="bounded-exhaustive enumeration of wire-level inputs (alphabet product + whole-field sweeps) through the real decode/update path against an exact dyadic-rational reference",
-   text="Tracking replies are built as wire bytes, decoded by chrony-candm's Reply::deserialize, sent as messages into the real process_messages loop, and the bound of the published record is compared with the exact value of |offset| + dispersion + delay/2 (+PHC) rounded up, computed in 256-bit integer arithmetic on the dyadic values of the three chrony floats (accepted: the IEEE-double evaluation envelope, one integer except within 2^-50 relative of an integer). Quick: product of per-field alphabets (both offset signs, sub-ns to 1e6 s, extreme exponents) x PHC values plus every 65537th of the 2^32 offset encodings; thorough: all 2^32 offset encodings (two delay/dispersion pairs) and all 2^25 coefficients x 5 exponents for delay and dispersion.",
+   text="Tracking replies are built as wire bytes, decoded by chrony-candm's Reply::deserialize, sent as messages into the real process_messages loop, and the bound of the published record is compared with the exact value of |offset| + dispersion + delay/2 (+PHC) rounded up, computed in 256-bit integer arithmetic on the dyadic values of the three chrony floats (accepted: the IEEE-double evaluation envelope, one integer except within 2^-50 relative of an integer). Quick: product of per-field alphabets (both offset signs, sub-ns to 1e6 s, extreme exponents) x PHC values plus every 65537th of the 2^32 offset encodings; thorough: all 2^32 offset encodings (two delay/dispersion pairs) and all 2^25 coefficients x 5 exponents for delay and dispersion. The PHC term is also exercised through the real poller (PHC configured and matching, error bound read from a file) for 4 variants of the report fields that should not matter.",
    design_ref="6", note="Trusted base: the wire builder (cross-checked against the crate's decoder at start-up), the 256-bit reference arithmetic. Reports with |value| >= 2^30 s or negative delay/dispersion are outside the statement's meaningful range and are not judged."),
 })
 
@@ -63,19 +63,19 @@ CHECKS.update({
    text="Every sequence of non-synchronised outcomes of depth 5 (thorough 8) after a daemon start at two machine uptimes: every record published before the lifetime's first synchronised report must carry Unknown; every distinct record so published is then written through the real ShmWriter (fresh segment, and restart over an older good record) and evaluated by the real client library (new and long-lived client) at uptimes 5/100/999/1001 s: it must say Unknown.",
    design_ref="4.4", note=HIST_NOTE),
  "C10": dict(engine="histmc", category="exploration", technique="exhaustive sweep of the 16-bit leap-status domain x boundary alphabets through the real decode/classify/FSM path against a reference classifier",
-   text="All 65536 leap-status values x update-interval alphabet x reference-time ages on both sides of 'now' and of the eight-interval threshold (exact dyadic threshold, +/-1 ns, whole-second neighbours) x previous status, as wire-decoded tracking messages through the real process_messages; published status compared with the reference classification (ages inside (floor(8I) s, 8I] are a don't-care).",
+   text="All 65536 leap-status values x update-interval alphabet x reference-time ages on both sides of 'now' and of the eight-interval threshold (exact dyadic threshold, +/-1 ns, whole-second neighbours) x previous status, as wire-decoded tracking messages through the real process_messages; published status compared with the reference classification (ages inside (floor(8I) s, 8I] are a don't-care); ages include the wrap points of narrowing conversions. Phase 2: the same report processed twice with virtual time advancing in between (every pair of ages, with and without an outage message between): a classification must not be cached.",
    design_ref="4.3, 4.4", note=HIST_NOTE),
  "C12": dict(engine="histmc", category="exploration", technique="exhaustive enumeration of delay placements (virtual time advancing at each clock read and during the request) with a logged clock-read order",
-   text="For every combination of per-read time advance and reply latency: on the daemon side the as-of of the emitted message must be a monotonic reading logged before the request to chronyd; on the client side (record API and client library over a real segment) the realtime clock is read before the monotonic clock, the interval is centred on the realtime reading and its half-width is at least bound + drift x (later monotonic reading - as-of).",
+   text="For every combination of per-read time advance and reply latency: on the daemon side the as-of of the emitted message must be a monotonic reading logged before the request to chronyd; on the client side (record API and client library over a real segment) the realtime clock is read before the monotonic clock, the interval is centred on the realtime reading and its half-width is at least bound + drift x (the monotonic reading taken after the realtime reading the interval is centred on - as-of); start ages include ones just before as-of so that the clock crosses the causality window during the call (a retry path is then taken).",
    design_ref="4.4", note=HIST_NOTE),
  "C13": dict(engine="histmc", category="model_checking", technique=HIST_TECH,
-   text="Every sequence up to depth 3 (thorough 4) of (answer kind: tracking with the PHC's reference id / another id / silence / a non-tracking reply) x (PHC file readable or not) x (gap since the previous poll: 0.1, 1, 4.9, 5, 5.1, 100 s; reply latency 0 or 2.9 s) x (PHC configured or not) through the real polling loop with the real ClockErrorBoundPoller (virtual Instant): the message sent to the writer thread is compared with a reference poller (grace iff the last good answer is < 5 s old, Unknown-class immediately after start, PHC bound added iff the ids match, PHC read failure never a data message, as-of = the poll instant).",
+   text="Every sequence up to depth 3 (thorough 4) of (answer kind: tracking with the PHC's reference id / another id / silence / a non-tracking reply) x (PHC file readable or not) x (gap since the previous poll: 0.1, 1, 4.9, 5, 5.1, 100 s; reply latency 0 or 2.9 s) x (PHC configured or not) through the real polling loop with the real ClockErrorBoundPoller (virtual Instant): the message sent to the writer thread is compared with a reference poller (grace iff the last good answer is < 5 s old, Unknown-class immediately after start, PHC bound added iff the ids match, PHC read failure never a data message, as-of = the poll instant). PHC read failures: missing file, and read(2) failing with EIO/EOPNOTSUPP/EBUSY/ENODEV on a file that opens (read interposed by the harness); 4 variants of the report fields no property gives a meaning to (stratum 0/1/2/15, source address, ...); gaps include 2^32 us/ms + 1 s; one 7 350-poll lifetime.",
    design_ref="4.4", note=HIST_NOTE),
 })
 
 CHECKS.update({
  "C19": dict(engine="procmc", category="exploration", technique="bounded-exhaustive enumeration of a boundary alphabet of command lines on the real release binary (private mount namespaces), exact oracle",
-   text="The release clockbound binary (built without hooks from the current tree) is started once per --max-drift-rate value in a private mount namespace with its own tmpfs on /run; the drift field of the segment it publishes must be exactly 1000 x the value (1000 when omitted), or the process must exit non-zero without publishing. Alphabet: small values, powers of two +/- 1 and, for every k = 1..999 (thorough; a subset in quick), both sides of the point where value x 1000 crosses k x 2^32, so any wrapping/truncating/saturating conversion is caught; plus arguments clap must reject. Not exhaustive over 2^32 values (stated in the evidence).",
+   text="The release clockbound binary (built without hooks from the current tree) is started once per --max-drift-rate value in a private mount namespace with its own tmpfs on /run; the drift field of the segment it publishes must be exactly 1000 x the value (1000 when omitted), or the process must exit non-zero without publishing. Alphabet: every 2003rd (thorough: every 97th) representable rate (a prime-stride progression: scattered single-value errors, e.g. of a float conversion, are hit), small values, powers of two +/- 1 and, for every k = 1..999 (thorough; a subset in quick), both sides of the point where value x 1000 crosses k x 2^32, so any wrapping/truncating/saturating conversion is caught; plus arguments clap must reject. Not exhaustive over 2^32 values (stated in the evidence).",
    design_ref="7", note="Trusted base: unshare/tmpfs isolation, od/stat to read the published segment. Without chronyd the first poll fails at once and the first (Unknown) record is published within milliseconds."),
 })
 
@@ -90,13 +90,13 @@ CHECKS.update({
    text="Every truncation/extension length 0..80 of a valid segment, the product magic x declared size x version x generation x body, every single-byte mutation (5 values) of the first 64 bytes, and missing file / missing parents / directory / dangling symlink: ShmReader::new and ClockBoundClient::new_with_path must return exactly the outcome the documented header rules give (kind, errno for system calls), never crash (each case runs in a forked worker); then the real ShmWriter::new + one write() over the same path: a fresh reader and the client library read back exactly the published record, and a file that was unusable is exactly the documented 72-byte layout afterwards.",
    design_ref="6", note="Trusted base: the validator in harness/src/gridmc/segfiles.rs (transcribed from the statement and docs); tmpfs semantics. Structured alphabet, not all byte contents (stated in the evidence)."),
  "C17": dict(engine="gridmc", category="exploration", technique="bounded-exhaustive enumeration + differential execution (C library vs Rust client on the same segment at the same virtual instant; file bytes vs a decoder transcribed from the protocol document)",
-   text="(i) 9000 records (product of field alphabets x 3 statuses) written by the real ShmWriter are decoded from the file with offsets/widths transcribed by hand from docs/PROTOCOL.md (magic in any of the readings the document allows, size 72, version 1, even generation, every field, status 0/1/2). (ii) A C program compiled at check time against clockbound.h and linked with the freshly built libclockbound.so and libclockbound.a (it defines clock_gettime itself, so the library reads the scripted clock) is compared with the Rust client on ~5300 cases per library: record x age grid incl. both status thresholds and the causality window, injected clock_gettime failures, and the C16 file alphabet for clockbound_open; interval, status, error kind, errno and detail must agree.",
+   text="(i) 9000 records (product of field alphabets x 3 statuses) written by the real ShmWriter are decoded from the file with offsets/widths transcribed by hand from docs/PROTOCOL.md (magic in any of the readings the document allows, size 72, version 1, even generation, every field, status 0/1/2). (ii) A C program compiled at check time against clockbound.h and linked with the freshly built libclockbound.so and libclockbound.a (it defines clock_gettime itself, so the library reads the scripted clock) is compared with the Rust client on ~5300 cases per library: record x age grid incl. both status thresholds and the causality window, injected clock_gettime failures, and the C16 file alphabet for clockbound_open; interval, status, error kind, errno and detail must agree; (iii) every sequence of up to 3 segment mutations (a complete publication, an update left in flight, a wipe, nothing) with long-lived contexts in both libraries and a now() after every step - the two libraries must carry the same reader state.",
    design_ref="6", note="Trusted base: cc, symbol interposition of clock_gettime (checked: the C program reports which clock the library read first), the hand-transcribed decoder."),
 })
 
 CHECKS.update({
  "C01": dict(engine="histmc", category="model_checking", technique=HIST_TECH + "; a physical world model with an extremal clock-error adversary supplies the oracle",
-   text="Every history of poll events up to length 3 (thorough 4) over 9 answer kinds (four synchronised reports incl. negative offset, all-zero and sub-ns values; unsynchronised; stale; unusable; silence; non-tracking reply) with <= 1 (2) timing deviations (poll gap 4.9/5.1/1001 s, reply latency 10 ms/2.9 s, daemon restart after 0.1/10/2000 s) x drift 1/50 ppm x machine uptime 100/5000 s x adversary (error sign; report valid at request or at reply) runs through the whole real pipeline (wire reply -> poller -> updater/FSM -> ShmWriter -> file -> ShmReader -> ClockBoundClient::now(), long-lived and newly opened clients). The realtime clock shows true time plus the largest error the provisos allow (min over past valid reports of B_i + drift x elapsed; 1 s before the first). At every publication, just before the next event, 1 ns either side of as-of+5 s and void-after, up to 1 h after the last event, and with a 3 s preemption between the client's two clock reads: status trusted => earliest-1 <= true time <= latest+1.",
+   text="Every history of poll events up to length 3 (thorough 4) over 9 answer kinds (four synchronised reports incl. negative offset, all-zero and sub-ns values; unsynchronised; stale; unusable; silence; non-tracking reply) with <= 1 (2) timing deviations (poll gap 4.9/5.1/1001 s, reply latency 10 ms/2.9 s, daemon restart after 0.1/10/2000 s) x drift 1/50 ppm x machine uptime 100/5000 s x adversary (error sign; report valid at request or at reply) runs through the whole real pipeline (wire reply -> poller -> updater/FSM -> ShmWriter -> file -> ShmReader -> ClockBoundClient::now(), long-lived and newly opened clients). The realtime clock shows true time plus the largest error the provisos allow (min over past valid reports of B_i + drift x elapsed; 1 s before the first). At every publication, just before the next event, 1 ns either side of as-of+5 s and void-after, up to 1 h after the last event, and with a 3 s preemption between the client's two clock reads (chronyd's reference time is quantised to a 16 s source cadence so that consecutive reports share it; one 2 000-event history for count-armed behaviour): status trusted => earliest-1 <= true time <= latest+1.",
    design_ref="4.3, 4.4", note=HIST_NOTE + " World assumptions: monotonic clock at the true rate (COARSE granularity not modelled); the error's magnitude grows no faster than the configured drift; containment is linear, so extremal trajectories and endpoint/threshold instants are the worst cases."),
 })
 
